@@ -58,7 +58,6 @@ type Path struct {
 	pos       int
 	taken     []Decision
 	pc        []*Term
-	unflushed int // index into pc of first conjunct not yet asserted in the solver
 	nondets   []nondetRec
 	names     map[string]int
 	steps     int64
@@ -71,6 +70,7 @@ type Path struct {
 	forks     int
 	goroutines []*goroutine
 	extraVars []*Term
+	pcSet     map[int]bool
 }
 
 func (p *Path) tt() *TermTable { return p.w.tt }
@@ -83,6 +83,27 @@ func (p *Path) addPC(c *Term) {
 		return
 	}
 	p.pc = append(p.pc, c)
+	if p.pcSet == nil {
+		p.pcSet = map[int]bool{}
+	}
+	p.pcSet[c.id] = true
+	if c.Op == OAnd {
+		for _, a := range c.A {
+			p.pcSet[a.id] = true
+		}
+	}
+	if c.Op == ONot && (c.A[0].Op == OUlt || c.A[0].Op == OSlt) {
+		lt := c.A[0]
+		rev := p.tt().Not(p.tt().Mk(lt.Op, sortBool, 0, lt.A[1], lt.A[0]))
+		if p.pcSet[rev.id] {
+			// derived equality helps the solver's equation solving
+			eq := p.tt().Eq(lt.A[0], lt.A[1])
+			if !p.pcSet[eq.id] {
+				p.pc = append(p.pc, eq)
+				p.pcSet[eq.id] = true
+			}
+		}
+	}
 	for _, cm := range p.models {
 		if cm.valid {
 			v, ok := p.tt().Eval(c, cm.m, cm.memo)
@@ -90,13 +111,6 @@ func (p *Path) addPC(c *Term) {
 				cm.valid = false
 			}
 		}
-	}
-}
-
-func (p *Path) flush() {
-	s := p.w.solver
-	for ; p.unflushed < len(p.pc); p.unflushed++ {
-		s.Assert(p.pc[p.unflushed])
 	}
 }
 
@@ -166,31 +180,31 @@ func (p *Path) check(c *Term) (SatResult, *cachedModel) {
 		p.w.solver.Stats.CacheHits++
 		return Sat, cm
 	}
-	p.flush()
-	s := p.w.solver
-	var r SatResult
 	if c != nil {
-		r = s.Check(c)
-	} else {
-		r = s.Check()
+		// syntactic implication by the path condition
+		if p.pcSet[c.id] {
+			p.w.solver.Stats.CacheHits++
+			return p.check(nil)
+		}
+		if n := p.tt().Not(c); p.pcSet[n.id] {
+			p.w.solver.Stats.CacheHits++
+			return Unsat, nil
+		}
 	}
+	s := p.w.solver
+	asserts := p.pc
+	if c != nil {
+		asserts = append(append([]*Term{}, p.pc...), c)
+	}
+	r, m := s.Query(asserts, nil, p.vars())
 	var cm *cachedModel
 	if r == Sat {
-		m := s.GetModel(p.vars())
 		cm = p.addModel(m)
 		if c != nil {
 			if v, ok := p.tt().Eval(c, m, cm.memo); ok && v.u == 0 {
-				// evaluator and solver disagree: treat as engine fault
-				s.EndCheck()
 				panic(pathEnd{stUnsupported, "engine: model does not satisfy query (evaluator/solver disagreement): " + c.String()})
 			}
 		}
-	}
-	s.EndCheck()
-	if s.dead {
-		s.restart()
-		p.w.resync(p)
-		return Unknown, nil
 	}
 	return r, cm
 }
@@ -437,12 +451,6 @@ func (w *Worker) push(c *Case, prefix []Decision) {
 	e.cond.Signal()
 }
 
-// resync re-establishes the solver context after a restart.
-func (w *Worker) resync(p *Path) {
-	w.solver.Push()
-	p.unflushed = 0
-}
-
 func (e *Engine) run(cases []*Case, nworkers int) {
 	e.cond = sync.NewCond(&e.mu)
 	for i := len(cases) - 1; i >= 0; i-- {
@@ -514,6 +522,8 @@ func (e *Engine) run(cases []*Case, nworkers int) {
 			e.stats.CacheHits += st.CacheHits
 			e.stats.Seconds += st.Seconds
 			e.stats.Errors += st.Errors
+			e.stats.Fallbacks += st.Fallbacks
+			e.stats.FallbackDecided += st.FallbackDecided
 			e.unknownBranches += w.unknownBranches
 			e.mu.Unlock()
 		}(i)
@@ -527,7 +537,6 @@ func (w *Worker) runPath(j job) {
 	p.models = []*cachedModel{{m: Model{}, memo: map[int]*cval{}, valid: true}}
 	w.cur = p
 	w.interp.p = p
-	w.solver.Push()
 	status := stComplete
 	reason := ""
 	func() {
@@ -558,9 +567,6 @@ func (w *Worker) runPath(j job) {
 	}
 	if status == stComplete && p.tainted {
 		// completed, but some feasibility answer was unknown
-	}
-	for w.solver.Depth() > 0 {
-		w.solver.Pop()
 	}
 	w.interp.p = nil
 
@@ -611,17 +617,11 @@ func (p *Path) checkQuiet() (SatResult, *cachedModel) {
 	if cm := p.cacheLookup(nil); cm != nil {
 		return Sat, cm
 	}
-	s := p.w.solver
-	s.Push()
-	defer s.Pop()
-	p.unflushed = 0
-	p.flush()
-	r := s.Check()
+	r, m := p.w.solver.Query(p.pc, nil, p.vars())
 	var cm *cachedModel
 	if r == Sat {
-		cm = p.addModel(s.GetModel(p.vars()))
+		cm = p.addModel(m)
 	}
-	s.EndCheck()
 	return r, cm
 }
 
